@@ -64,6 +64,9 @@ CHECKS["C13"] = ("distsim", "exploration", "deterministic simulation with fault 
 CHECKS["C11"] = ("codec", "fault_enumeration", "deterministic simulation with fault injection on the stored artefact: corruption catalogue and exhaustive truncation/bit-flip sweeps on machine strings, compression bombs under a counting allocator, restart-from-strings behavioural comparison",
    "Fault-free baseline (round trip incl. sizes crossing 32 KiB / 256 KiB compressed and approaching 1 MiB, behavioural identity under a fault-injected history) plus the storage-fault catalogue against from_str and the legacy v1 parser; every truncation point and single-bit flip of small encodings is enumerated; peak memory of from_str is measured against 192 MiB + 4*len(input).",
    "Round trip is input generation (the no-fault baseline of the channel). Memory constant derived from the largest machine a 1 MiB payload can describe (measured peak 68 MB).", "DESIGN.md §6 C11")
+CHECKS["C20"] = ("ffisim", "exploration", "deterministic simulation: C API and Rust framework in lock-step under a virtual clock and seeded entropy (hook H3), canary-guarded output buffers, start-argument fault injection, start/stop cycles under a counting allocator",
+   "Seeded batches over all event types and ids drive maybenot_on_events and identically seeded Rust reference frameworks; every written action is compared field for field, guard slots and unused slots must stay untouched, count <= num_machines; start arguments (framings, non-UTF-8, corrupt strings, bad fractions, null pointers) are compared with a harness-side reference of the Rust API; repeated start/stop must return the heap to its previous level.",
+   "Exercised from Rust (maybenot.h not compiled). Real start instant bracketed by two references (before/after); disagreement between them ends the case as ambiguous. An over-long but never written output slice is invisible to canaries (Miri would see it).", "DESIGN.md §6 C20")
 NOT_YET = {}
 NA = {
  "C12": "pure predicate over one machine value: no history, clock, random draw, interleaving or stored-byte fault takes part in deciding whether validation accepts a value; deciding it is input generation (property-based testing), not deterministic simulation (DESIGN.md §7)",
